@@ -983,9 +983,19 @@ def run(ctx):
         "quantifier made concrete as: serial 1..9999999, resSeq -9999..99999, names 1-4 blank-free chars, chain/iCode 0-1 chars, |coordinate| <= 99999.999, |charge| < 10, 0 <= radius < 10",
         "one non-empty chunk written by print_pqr = one line of the file (holds when no field contains a newline)",
     ]
+    # composition with C07's ingest model: `pdb2pqr --clean` end to end (Properties/E2E_Clean.v), compared
+    # byte for byte with the file the real CLI path writes
+    from harness.props import e2e_clean
+
+    e2e_clean.run_extra(ctx)
 
 
 def replay(ctx, data):
+    from harness.props import e2e_clean
+
+    r = e2e_clean.replay_extra(ctx, data)
+    if r is not None:
+        return r
     case = data["case"]
     if "atoms" in case and case.get("is_cif"):
         import io as _io
